@@ -33,9 +33,9 @@ PROP = dict(
         "a nil slot in the middle are not described",
     ],
     partial=[
-        "SetTopUppedArray/GetTopUppedArray, On/Off, and the cell operations CopyRemaining/NextRef/ResetCounters are "
-        "modelled and checked by correspondence and by go.topup/go.refs/go.parsedwrite, with theorems only for "
-        "AddRef/NextRef limits (ref_overflow) and for the repaired setTopUppedArray on a witness",
+        "On/Off, the cell operations CopyRemaining/NextRef/ResetCounters, SetTopUppedArray on non-canonical arrays "
+        "(missing tag => error), lower-case and malformed Fift text are modelled and checked by correspondence and by "
+        "go.topup/go.refs/go.parsedwrite/go.fiftreject, with theorems only for AddRef/NextRef limits (ref_overflow)",
         "ops_sequence is stated for well-formed operations (Op.WF): uint64/int64 argument ranges, WriteInt width <= 64, "
         "WriteBigInt with a representable value and width >= 1, WriteBigUint with a non-negative value, source bit strings "
         "that hold their bits; operations outside WF are covered by the correspondence only",
@@ -58,7 +58,7 @@ PROP = dict(
                "(ReadBigUint partial byte, ReadBits dirty tail, parsed-cell buffer, WriteInt width 0/1) and the non-ASCII "
                "Fift-hex acceptance were reproduced on the Go code, repaired by fix: commits, and the model describes the "
                "repaired code; witnesses of the old behaviour are theorems about the `...Old` definitions and corpus lines. "
-               "Also theorems: ToFiftHex = hex text of the abstract bits and BitStringFromFiftHex(ToFiftHex s) = the same bits for every length and content (fifthex_roundtrip); the first ceil(len/8) buffer bytes are the canonical packing of the bits (canonical_buffer). Not theorems: topped-up arrays, On/Off, CopyRemaining, lower-case / malformed Fift text (correspondence + direct oracles only).",
+               "Also theorems: ToFiftHex = hex text of the abstract bits and BitStringFromFiftHex(ToFiftHex s) = the same bits for every length and content (fifthex_roundtrip); the first ceil(len/8) buffer bytes are the canonical packing of the bits (canonical_buffer). GetTopUppedArray = canonical topped-up bytes, SetTopUppedArray inverts it, and the repaired Cell.setTopUppedArray establishes the invariant with capacity 1023 for any parsed data (parsed_cell_inv). Not theorems: On/Off, CopyRemaining, lower-case / malformed Fift text (correspondence + direct oracles only).",
     level_note="trusted: Lean kernel; the hand model's fidelity to boc/bitString.go and boc/cell.go is checked, not proved "
                "(>= 15 000 compared lines per quick run, 196 000 thorough, incl. the exhaustive offset x width grid); "
                "translator X4 for minBitsRequired; Go runtime semantics listed in trusted_base",
